@@ -120,7 +120,7 @@ pub fn run(src: &str) -> Outcome {
     }
 }
 
-fn crossed_family(seed: u64) -> String {
+pub fn crossed_family(seed: u64) -> String {
     let mut r = grms::Rng(seed.wrapping_mul(0xA24BAED4963EE407) | 1);
     let k = 2 + r.below(3);           // items in the core
     let np = 2 + r.below(2);          // prefixes
